@@ -324,6 +324,7 @@ class Harness(object):
         outer_res = dict((n, self.value(('res', n))) for n in cfg.get('outer_res', []))
         route = Route(pattern, ep, rn, methods=['GET'], middlewares=[x for x, m in zip(insts, cfg['mws']) if m['level'] == 'route'],
                       resources=route_res)
+        self.route_obj = route
         sibling = []
         if cfg.get('sibling'):
             # a plain route bound *after* the main one: it must not inherit anything from the main route
@@ -351,6 +352,9 @@ class Harness(object):
         else:
             kw.update(slash_kw)
             app = Application(self.decoy_entries(cfg, decoys) + [route] + sibling, resources=app_res, middlewares=app_mws, **kw)
+        self.inner_app = app
+        self.prefix = prefix
+        self.has_outer = has_outer
         if has_outer:
             kw = {}
             if error_handler is not None:
@@ -365,6 +369,29 @@ class Harness(object):
             app = outer
         self.app = app
         return app
+
+    def rebind_poorer(self, cfg, error_handler=None):
+        """A second serving application made from the very same unbound Route (or embedded application) object,
+        with the same middlewares but *without* the serving level's resources.  Returns (cfg2, app2); raises what
+        clastic raises."""
+        import copy
+        from clastic import Application
+        cfg2 = copy.deepcopy(cfg)
+        kw = {}
+        if error_handler is not None:
+            kw['error_handler'] = error_handler
+        if self.has_outer:
+            cfg2['outer_res'] = []
+            mws = [x for x, m in zip(self.insts, cfg['mws']) if m['level'] == 'outer']
+            app2 = Application([(self.prefix, self.inner_app)], resources={}, middlewares=mws, **kw)
+        else:
+            cfg2['app_res'] = []
+            mws = [x for x, m in zip(self.insts, cfg['mws']) if m['level'] == 'app']
+            if cfg.get('slash_mode'):
+                kw['slash_mode'] = cfg['slash_mode']
+            app2 = Application([self.route_obj], resources={}, middlewares=mws, **kw)
+        self.app = app2
+        return cfg2, app2
 
     def expected_value(self, source, fid, name):
         if source[0] == 'default':
